@@ -952,3 +952,62 @@ Section Final.
     - unfold pmod_of_items. cbn [pmod_of]. rewrite String.eqb_refl. reflexivity.
   Qed.
 End Final.
+
+(** ** from the generator: which clauses of [ir_closed] follow from [generate] *)
+From V Require Import Proofs.GenProofs Proofs.FidelityBase.
+
+Lemma parse_ident_eq x y : parse_ident x = Ok y -> y = x.
+Proof. unfold parse_ident. destruct (ident_okb x); intros H; inversion H; reflexivity. Qed.
+
+Lemma create_type_ir_name_params r s t flat ir :
+  create_type_ir r s t flat = Ok (Some ir) ->
+  t_path t <> [] /\ last (t_path t) "" = pi_name (item_of_ir s ir) /\
+  ti_params ir = params_from_scale_info (t_params t).
+Proof.
+  intros H. rewrite create_type_ir_eq in H.
+  destruct (negb (is_composite_or_variant (t_def t))); [discriminate|]. cbv zeta in H.
+  destruct (path_ident (t_path t)) as [nm|] eqn:Epi; [|discriminate].
+  apply bind_ok in H as (name & Hname & H).
+  apply bind_ok in H as ([[kind cdac] unused] & Hk & H).
+  apply bind_ok in H as (d & _ & H). inversion H; subst; clear H.
+  apply parse_ident_eq in Hname. subst name.
+  unfold path_ident in Epi. destruct (t_path t) as [|a tl] eqn:Ep; [discriminate|]. inversion Epi; subst nm.
+  split; [discriminate|]. split; [|reflexivity].
+  unfold item_of_ir. cbn [ti_kind]. destruct (t_def t); try discriminate.
+  - apply bind_ok in Hk as (ku & _ & Hk). inversion Hk; subst. reflexivity.
+  - apply bind_ok in Hk as (vu & _ & Hk). inversion Hk; subst. reflexivity.
+Qed.
+
+Theorem closedb_emitted_partial r s teq m :
+  Proofs.ClosedProofs.root_fresh s -> starts_with "_" (s_root s) = false ->
+  generate r s teq = Ok m -> items_plain s m = true ->
+  keys_prefix_free m -> nodes_extra s m ->
+  closedb (s_root s) (pmod_of_items s m) = true.
+Proof.
+  intros Hfresh Hus Hg Hp Hpf Hex. apply closedb_of_ir; [|exact Hp].
+  destruct (generate_unique_names _ _ _ _ Hg) as [Hsorted Hnd].
+  unfold ir_closed. split; [exact Hus|]. split.
+  { destruct Hfresh as (_ & Ha & _). destruct (alloc_tokens (s_alloc s)) as [|a l]; [reflexivity|].
+    cbn [hd_is hd_error] in *. unfold Parse.teq. destruct (String.eqb a (s_root s)) eqn:E; [|reflexivity].
+    apply String.eqb_eq in E. subst a. congruence. }
+  split; [exact Hnd|]. split; [exact Hpf|].
+  intros p id ir Hin.
+  assert (Hget : items_get m p = Some (id, ir)) by (apply (items_get_In_iff m Hsorted); exact Hin).
+  destruct (generate_items_come_from_entries _ _ _ _ _ _ _ Hg Hget) as (t & flat & _ & Hpath & _ & _ & Hc).
+  destruct (create_type_ir_name_params _ _ _ _ _ Hc) as (Hne & Hlast & Hparams). rewrite Hpath in *.
+  split; [exact Hne|]. split; [exact Hlast|].
+  unfold item_closed. split; [|split].
+  - intros f Hf. destruct (Hex p id ir Hin f Hf) as [Htok Hnodes]. split; [exact Htok|].
+    intros x Hx. specialize (Hnodes x Hx). destruct x as [q|ptoks params|o|n o|es|q|i fl c|o st b];
+      cbn [node_closed]; try exact I; try exact Hnodes.
+    intros Hhd.
+    assert (Hhd' : hd_error ptoks = Some (s_root s)).
+    { destruct ptoks as [|a l]; [discriminate|]. cbn [hd_is] in Hhd. apply String.eqb_eq in Hhd.
+      subst a. reflexivity. }
+    destruct (paths_resolve r s Hfresh teq m Hg p id ir Hget f Hf ptoks params Hx Hhd')
+      as (q & Eq & Hq).
+    destruct (items_get m q) as [[id' ir']|] eqn:Gq; [clear Hq|congruence].
+    exists q, id', ir'. split; [exact Eq|]. split; [exact Gq|]. apply (Hnodes q id' ir' Eq Gq).
+  - intros q Hq. destruct (generics_used _ _ _ _ _ Hc) as [Hu _]. exact (Hu q Hq).
+  - rewrite Hparams. apply params_nodup.
+Qed.
